@@ -11,6 +11,19 @@ let str_ints l = if l = [] then "-" else String.concat " " (List.map (fun x -> s
 let dot_ints l = String.concat "." (List.map (fun x -> string_of_int (int_of_nat x)) l)
 
 let kind_char = function Logic -> "L" | Contains -> "C" | Data -> "D"
+(* the text of one line of Yaml.yline (decimal numerals and key words are the only glue), escaped like the
+   harness's GY observation: newline -> '|' *)
+let yline_text = function
+  | YGraph -> "graph:"
+  | YNodes e -> if e then "  nodes: []" else "  nodes:"
+  | YNode w -> Printf.sprintf "  - %d" (int_of_nat w)
+  | YHoles -> "  node_holes: []"
+  | YProp -> "  edge_property: directed"
+  | YEdges e -> if e then "  edges: []" else "  edges:"
+  | YSrc a -> Printf.sprintf "  - - %d" (int_of_nat a)
+  | YDst b -> Printf.sprintf "    - %d" (int_of_nat b)
+  | YKind k -> "    - " ^ (match k with Logic -> "Logic" | Contains -> "Contains" | Data -> "Data")
+let yaml_obs ls = String.concat "" (List.map (fun l -> yline_text l ^ "|") ls)
 let str_edges es =
   if es = [] then "-" else
   String.concat " " (List.map (fun ((a, b), k) ->
@@ -90,10 +103,15 @@ let builder_case ?(timed=false) id ops_s tf_s =
      | Some gi ->
        obs id "GN" (str_ints gi.gi_nodes); obs id "GE" (str_edges gi.gi_edges);
        obs id "GI" (str_ints (gi_iter gi)); obs id "GR" (str_ints (gi_iter_rev gi));
-       let gi2 = gi_de (gi_ser gi) in
-       obs id "GS" (if gi_eqb gi gi2 then "1" else "0");
-       obs id "GSE" (str_edges gi2.gi_edges); obs id "GSI" (str_ints (gi_iter gi2));
-       obs id "GS2" (if gi_eqb gi gi2 then "1 1" else "0 0"))
+       obs id "GY" (yaml_obs (gi_yaml gi));
+       (* GS: through the YAML text (Yaml.gi_parse); GS2: through petgraph's serialisation structure *)
+       (match gi_parse (gi_yaml gi) with
+        | Some gi2 ->
+          obs id "GS" (if gi_eqb gi2 gi then "1" else "0");
+          obs id "GSE" (str_edges gi2.gi_edges); obs id "GSI" (str_ints (gi_iter gi2))
+        | None -> obs id "GS" "E");
+       let gi3 = gi_de (gi_ser gi) in
+       obs id "GS2" (if gi_eqb gi gi3 then "1 1" else "0 0"))
 
 let pair_case id a_s b_s =
   let side s =
